@@ -4,7 +4,8 @@
    TcpChannelTask::run reports before anything else (`init_outputs`).  `Lifecycle.legal` is the
    Spec automaton written from the property text.  `es` ranges over ALL event lists. *)
 From Coq Require Import NArith List.
-From Rodbus Require Import Model.Retry Spec.Lifecycle Spec.ClientSpec Gen.SessionErrors Model.ClientTask Proofs.ClientBase Proofs.C13Proofs.
+From Rodbus Require Import Model.Retry Spec.Lifecycle Spec.ClientSpec Gen.SessionErrors Model.ClientTask Model.SerialTask
+  Proofs.ClientBase Proofs.C13Proofs Proofs.C13Live Proofs.C13Serial.
 Import ListNotations.
 Local Open Scope N_scope.
 
@@ -60,6 +61,21 @@ Theorem C13_in_flight_ends : forall cfg s r tx d, ph s = PInFlight r tx d -> fir
 Proof. exact c13_in_flight_ends. Qed.
 Print Assumptions C13_in_flight_ends.
 
+(* liveness, from EVERY state (whatever the phase, whatever is queued in front): once a Shutdown
+   command is in the queue, or once every handle is gone, the task's own steps (recv, its timers,
+   the clock) lead to termination; `internal` admits only EvRecv / EvTimer / EvTick *)
+Theorem C13_shutdown_from_every_state : forall cfg s,
+  (queue s = [] -> blocked s = []) -> In CShutdown (queue s ++ blocked s) -> ph s <> PDone ->
+  exists es, forallb internal es = true /\ ph (fst (run cfg s es)) = PDone.
+Proof. exact shutdown_from_every_state. Qed.
+Print Assumptions C13_shutdown_from_every_state.
+
+Theorem C13_drop_all_handles_from_every_state : forall cfg s,
+  handles s = 0%nat -> blocked s = [] -> ph s <> PDone ->
+  exists es, forallb internal es = true /\ ph (fst (run cfg s es)) = PDone.
+Proof. exact drop_from_every_state. Qed.
+Print Assumptions C13_drop_all_handles_from_every_state.
+
 (* a disable closes an open connection and is reported as Disabled; while a request is in flight it
    waits in the queue until that transaction is over *)
 Theorem C13_disable_closes : forall cfg s q, ph s = PIdle -> queue s = CDisable :: q ->
@@ -71,6 +87,25 @@ Print Assumptions C13_disable_closes.
 Theorem C13_disable_waits_for_transaction : forall cfg s r tx d, ph s = PInFlight r tx d -> step cfg s EvRecv = (s, []).
 Proof. exact c13_disable_waits. Qed.
 Print Assumptions C13_disable_waits_for_transaction.
+
+(* --- serial channels (PortState) ---
+   The serial task (Model/SerialTask.v) is the same outer loop with the port opened synchronously:
+   whenever a step ends in the connecting phase the open result (environment) is applied at once.
+   Its PortState trace (no Connecting notification, one Wait state, Open for Connected) is a legal
+   path of the Spec automaton `plegal` for ALL serial event lists ... *)
+Theorem C13_serial_legal : forall cfg hn rmin rmax es,
+  plegal (port_trace (init_outputs ++ snd (srun cfg (sinit hn rmin rmax) es))) = true.
+Proof. exact serial_legal. Qed.
+Print Assumptions C13_serial_legal.
+
+(* ... and every serial run is a run of the TCP system on the event list with the open results
+   inserted (same outputs, same final task state), so the theorems stated for all TCP event lists
+   (exactly once, timeouts, fail fast, termination) hold for the serial channel as well *)
+Theorem C13_serial_is_tcp_run : forall cfg es x,
+  snd (srun cfg x es) = snd (run cfg (ss x) (expand cfg x es)) /\
+  ss (fst (srun cfg x es)) = fst (run cfg (ss x) (expand cfg x es)).
+Proof. exact serial_is_tcp_run. Qed.
+Print Assumptions C13_serial_is_tcp_run.
 
 (* non-vacuity: refused, accepted then closed, disable while waiting, enable, shutdown *)
 Example C13_nonvacuous :
